@@ -3,12 +3,14 @@ package checks
 import (
 	"encoding/json"
 	"fmt"
+	"os"
 	"os/user"
 	"reflect"
 	"sort"
 	"strconv"
 	"strings"
 	"sync"
+	"time"
 
 	"github.com/elastic/go-libaudit/v2/aucoalesce"
 	"github.com/elastic/go-libaudit/v2/auparse"
@@ -402,7 +404,87 @@ func c15History(c *mon.Ctx, r *mon.Rand, pool []logenc.Group, nops int) (key str
 	return
 }
 
+// c15SameIDStorm: several goroutines resolve THE SAME id, not yet cached, at the same moment (fresh caches per
+// round, real accounts of this machine read from /etc/passwd and /etc/group, so that the look-up behind the cache
+// really runs): every one of them must get what a single look-up on a fresh cache gives.
+func c15SameIDStorm(c *mon.Ctx) {
+	type acct struct{ id, name string }
+	read := func(path string) []acct {
+		var out []acct
+		b, _ := os.ReadFile(path)
+		for _, l := range strings.Split(string(b), "\n") {
+			f := strings.Split(l, ":")
+			if len(f) >= 3 && f[0] != "" && len(out) < 12 {
+				out = append(out, acct{f[2], f[0]})
+			}
+		}
+		return out
+	}
+	users, groups := read("/etc/passwd"), read("/etc/group")
+	if len(users) == 0 || len(groups) == 0 {
+		c.Note("same-id storm: no accounts readable")
+		return
+	}
+	rounds := c.Pick(150, 6000)
+	const G = 8
+	for rd := 0; rd < rounds && c.Violations() == 0; rd++ {
+		u, g := users[rd%len(users)], groups[rd%len(groups)]
+		refU, refG := aucoalesce.NewUserCache(time.Hour).LookupID(u.id), aucoalesce.NewGroupCache(time.Hour).LookupID(g.id)
+		uc, gc := aucoalesce.NewUserCache(time.Hour), aucoalesce.NewGroupCache(time.Hour)
+		line := fmt.Sprintf("type=SYSCALL msg=audit(1500000000.600:%d): arch=c000003e syscall=2 success=yes exit=0 a0=1 a1=2 a2=3 a3=4 items=0 ppid=1 pid=2 auid=%s uid=%s gid=%s euid=%s suid=%s fsuid=%s egid=%s sgid=%s fsgid=%s tty=pts0 ses=1 comm=\"x\" exe=\"/bin/x\" key=(null)", 100+rd, u.id, u.id, g.id, u.id, u.id, u.id, g.id, g.id, g.id)
+		sigs := make([]string, G)
+		direct := make([]string, G)
+		var wg sync.WaitGroup
+		start := make(chan struct{})
+		for i := 0; i < G; i++ {
+			wg.Add(1)
+			go func(i int) {
+				defer wg.Done()
+				m, err := auparse.ParseLogLine(line)
+				if err != nil {
+					return
+				}
+				e, err := aucoalesce.CoalesceMessages([]*auparse.AuditMessage{m})
+				<-start
+				if i%2 == 0 {
+					direct[i] = uc.LookupID(u.id) + "/" + gc.LookupID(g.id)
+				}
+				if err == nil {
+					aucoalesce.ResolveIDsFromCaches(e, uc, gc)
+				}
+				sigs[i] = eventSig(e, err)
+			}(i)
+		}
+		close(start)
+		wg.Wait()
+		c.Add("evaluations", 1)
+		c.Add("same_id_storm_rounds", 1)
+		for i := 0; i < G; i++ {
+			if i%2 == 0 && direct[i] != refU+"/"+refG {
+				c.Violation("concurrent-resolve-differs", fmt.Sprintf("goroutine %d of %d resolving uid %s / gid %s at the same moment on fresh caches got %q, a single look-up gives %q", i, G, u.id, g.id, direct[i], refU+"/"+refG), &c15Case{Ops: []string{"same-id storm", line}})
+				return
+			}
+			if sigs[i] != sigs[0] {
+				c.Violation("concurrent-resolve-differs", fmt.Sprintf("%d goroutines resolved equal events (uid %s = %q, gid %s = %q) at the same moment on fresh caches and got different events: %s", G, u.id, refU, g.id, refG, diffSig(sigs[0], sigs[i])), &c15Case{Ops: []string{"same-id storm", line}})
+				return
+			}
+		}
+		// and the common outcome is the sequential one
+		if m, err := auparse.ParseLogLine(line); err == nil {
+			e, err := aucoalesce.CoalesceMessages([]*auparse.AuditMessage{m})
+			if err == nil {
+				aucoalesce.ResolveIDsFromCaches(e, aucoalesce.NewUserCache(time.Hour), aucoalesce.NewGroupCache(time.Hour))
+			}
+			if ref := eventSig(e, err); ref != sigs[0] {
+				c.Violation("concurrent-resolve-differs", fmt.Sprintf("events resolved by %d goroutines at the same moment differ from the same event resolved alone: %s", G, diffSig(ref, sigs[0])), &c15Case{Ops: []string{"same-id storm", line}})
+				return
+			}
+		}
+	}
+}
+
 func c15Concurrent(c *mon.Ctx) {
+	c15SameIDStorm(c)
 	corpus := logenc.CorpusGroups()
 	r := c.Rand(50)
 	var pool []logenc.Group
@@ -494,7 +576,7 @@ func c15Concurrent(c *mon.Ctx) {
 func init() {
 	register(&mon.CheckSpec{
 		ID: "C15", Level: "exploration",
-		Rule: "cases = (first, on the cold process) for 21 file-related syscalls an event with four PATH records coalesced before and after an event of the same syscall with one or two PATH records: equal results; then a cross-process order probe: a fixed list of 39 events (one per candidate of every record type with several conditional normalisations - SELinux and AppArmor AVC records, alone and inside SYSCALL groups -, file syscalls with 4/1/2 PATH records, user-space records of seven types) is coalesced in forward order in this process and in reverse, rotated-by-one, rotated-by-half and forward order by four FRESH processes (`vcheck probe c15-order`): every event's outcome must be the same whatever the process saw before it; then seeded operation histories over a pool of 6-12 message groups (generated SYSCALL groups and single records with unique values, compound events that share one first record type - every named type in turn - with different syscalls, the repo's 47 recorded events, groups of hostile mutated text): CoalesceMessages(i), the same again (and four more times at the end of the history; some groups carry two SOCKADDR records of different families), ResolveIDs(e_j) through the global caches (names injected with HardcodeUsers/Groups for determinism), and a re-check of EVERY event returned so far after every operation. Deep copies of Data()/Tags()/ToMapStr() of every input message taken before its first use must equal the values afterwards; a repeated coalesce must give an equal event (JSON + sorted multiset of warning texts); every retained event must equal its own snapshot at every later step. After the histories, events whose ids carry names that never expire (root, injected names) are coalesced and resolved again after every few thousand unrelated ids went through the global caches: the result must not change. A second phase under the race detector coalesces and resolves different groups (incl. EXECVE records with 1..N arguments in ascending order) from 16 goroutines - the FIRST round on the cold process, before anything was coalesced sequentially, so lazily built global state is built by racing goroutines - and compares with a sequential reference computed afterwards (which must itself be stable). distinct_nontrivial = distinct histories (by pool text and op list) that contain a repeated coalesce or a ResolveIDs while other events are retained.",
+		Rule: "cases = (first, on the cold process) for 21 file-related syscalls an event with four PATH records coalesced before and after an event of the same syscall with one or two PATH records: equal results; then a cross-process order probe: a fixed list of 39 events (one per candidate of every record type with several conditional normalisations - SELinux and AppArmor AVC records, alone and inside SYSCALL groups -, file syscalls with 4/1/2 PATH records, user-space records of seven types) is coalesced in forward order in this process and in reverse, rotated-by-one, rotated-by-half and forward order by four FRESH processes (`vcheck probe c15-order`): every event's outcome must be the same whatever the process saw before it; then seeded operation histories over a pool of 6-12 message groups (generated SYSCALL groups and single records with unique values, compound events that share one first record type - every named type in turn - with different syscalls, the repo's 47 recorded events, groups of hostile mutated text): CoalesceMessages(i), the same again (and four more times at the end of the history; some groups carry two SOCKADDR records of different families), ResolveIDs(e_j) through the global caches (names injected with HardcodeUsers/Groups for determinism), and a re-check of EVERY event returned so far after every operation. Deep copies of Data()/Tags()/ToMapStr() of every input message taken before its first use must equal the values afterwards; a repeated coalesce must give an equal event (JSON + sorted multiset of warning texts); every retained event must equal its own snapshot at every later step. After the histories, events whose ids carry names that never expire (root, injected names) are coalesced and resolved again after every few thousand unrelated ids went through the global caches: the result must not change. A second phase under the race detector coalesces and resolves different groups (incl. EXECVE records with 1..N arguments in ascending order) from 16 goroutines - the FIRST round on the cold process, before anything was coalesced sequentially, so lazily built global state is built by racing goroutines - and compares with a sequential reference computed afterwards (which must itself be stable); before that, the same-id storm: eight goroutines resolve the same not-yet-cached uid / gid of a real account on fresh caches at the same moment (150 / 6 000 rounds), each must get what a single look-up gives. distinct_nontrivial = distinct histories (by pool text and op list) that contain a repeated coalesce or a ResolveIDs while other events are retained.",
 		Assumptions: []string{
 			"the ORDER of Event.Warnings is not asserted (they are produced while ranging over maps); warnings are compared as a sorted multiset",
 			"ResolveIDs may change the event it is given; all other retained events and all input messages must stay equal",
